@@ -110,19 +110,35 @@ OVF_ALLOWED = {
 }
 
 
+READ_PATH = ("bigtools/src/bbi/bigwigread.rs", "bigtools/src/bbi/bigbedread.rs", "bigtools/src/bbi/bbiread.rs")
+OVF_ALLOWED_READ = {
+    ("bbi::bigwigread::get_block_values", "Add", "u32", "chrom_start", "item_span"):
+        "end of a variable/fixed-step item = start + span: in a well-formed file it is at most the chromosome length (<= u32::MAX)",
+}
+
+
 def _ovf_key(b, a):
     return (_short(b["fn"]), a["op"], a["ty"], a["l"], a["r"])
 
 
+def ob_reader_arithmetic(ctx, res):
+    """C10-V1 (type-resolved): the same rule on the reader files (a well-formed file may use coordinates up to u32::MAX)"""
+    _arith(ctx, res, READ_PATH, OVF_ALLOWED_READ, "readArith", "the reader", 25)
+
+
 def ob_coordinate_arithmetic(ctx, res):
     """C13-V1 (type-resolved): overflow-checked u32/i32 additions, multiplications and shifts on the write and merge paths are confirmed one by one"""
+    _arith(ctx, res, WRITE_PATH + MERGE_PATH, OVF_ALLOWED, "coordArith", "the write/merge path", 40)
+
+
+def _arith(ctx, res, FILES, OVF_ALLOWED, ROLE, WHERE, FLOOR):
     m = _mir(ctx, res)
     if m is None:
         return
     n = seen = 0
     for b in m.bodies:
         f = m.rel(b["file"])
-        if not (f in WRITE_PATH or f in MERGE_PATH):
+        if f not in FILES:
             continue
         for a in b["asserts"]:
             if a["kind"] != "Overflow":
@@ -137,7 +153,7 @@ def ob_coordinate_arithmetic(ctx, res):
                 res.ok(_site(m, b, a), "%s %s `%s` %s `%s`: %s" % (a["ty"], a["op"], a["l"], {"Add": "+", "Mul": "*", "Shl": "<<"}[a["op"]], a["r"],
                                                                   OVF_ALLOWED.get(k) or OVF_ALLOWED[(k[0], k[1], k[2], "*", k[4])]))
                 continue
-            res.fail("coordArith/%s/%s/%s/%s" % (k[0], a["op"], a["l"], a["r"]), _site(m, b, a),
+            res.fail("%s/%s/%s/%s/%s" % (ROLE, k[0], a["op"], a["l"], a["r"]), _site(m, b, a),
                      "%s %s of `%s` and `%s` can overflow: coordinates and resolutions range up to u32::MAX (panic with overflow checks; wrap-around otherwise, "
                      "which stalls the zoom tiling loop). Use saturating/checked/wider arithmetic, or list the site with its bound" % (a["ty"], a["op"], a["l"], a["r"]))
         # arithmetic through the operator traits on references (`|z| z * 4` with z: &u32) is a call into core, which performs the same
@@ -148,16 +164,16 @@ def ob_coordinate_arithmetic(ctx, res):
                 continue
             n += 1
             seen += 1
-            res.fail("coordArith/%s/%s/by-reference" % (_short(b["fn"]), mm.group(2)), _site(m, b, c),
+            res.fail("%s/%s/%s/by-reference" % (ROLE, _short(b["fn"]), mm.group(2)), _site(m, b, c),
                      "%s %s through `%s` (an operand is a reference, e.g. a closure parameter) is overflow-checked inside core: it can overflow for sizes near u32::MAX "
                      "(panic with overflow checks, wrapped value otherwise); use checked/saturating arithmetic" % (mm.group(1), mm.group(2), c["callee"]))
     res.count("overflow_checked_sites_on_path", seen)
     res.count("narrow_add_mul_sites", n)
-    if seen < 40:
-        res.fail("coordArith/floor", "bigtools", "only %d overflow-checked sites seen on the write/merge path (expected >= 40)" % seen)
+    if seen < FLOOR:
+        res.fail("%s/floor" % ROLE, "bigtools", "only %d overflow-checked sites seen on %s (expected >= %d)" % (seen, WHERE, FLOOR))
         return
-    if not [v for v in res.violations if v["role"].startswith("coordArith/")]:
-        res.ok("write + merge path (MIR)", "%d overflow-checked arithmetic sites on the write/merge path; the %d narrow (<= 32 bit) Add/Mul/Shl among them are each bounded" % (seen, n))
+    if not [v for v in res.violations if v["role"].startswith(ROLE + "/")]:
+        res.ok("%s (MIR)" % WHERE, "%d overflow-checked arithmetic sites on %s; the %d narrow (<= 32 bit) Add/Mul/Shl among them are each bounded" % (seen, WHERE, n))
 
 
 # ---------------------------------------------------------------------------------------------------------------------
